@@ -611,6 +611,10 @@ class ClassParser(BaseParser):
                 context = getattr(_obj_self, "__context__", None)
                 if not isinstance(context, RuntimeContext):
                     context: RuntimeContext = parser.make_context()
+                else:
+                    # the context init_dataclass keeps on the instance: what an earlier (failed) initialization
+                    # recorded in it is no part of this one
+                    context.clear()
 
                 if isinstance(_d, dict):
                     kwargs.update(_d)
